@@ -183,13 +183,16 @@ def c01(ctx, rep):
 @prop("C13", "Decides the structural clauses of C13: (T-GROUP) the group verdict function on abstract two-member groups with marker "
              "contexts - full product of own / at-index / absolute / relative validation flags x index and offset configurations "
              "(direction and sign), leaf-only and for-all-leaves evaluation, eligibility by detector type and transaction type; "
-             "(T-OFFSET) offset inversion; (T-VALIDATED) validated_in_block rows. Not decided: agreement with concrete group "
+             "(T-OFFSET) offset inversion; (T-VALIDATED) validated_in_block rows; (T-INDEX, T-KEYMATCH) which key family (absolute / "
+             "relative offset, either operand order) an indexed read is credited to. Not decided: agreement with concrete group "
              "semantics over all programs; equality with the single-contract verdict.")
 def c13(ctx, rep):
     detectors.rule_group_verdicts(ctx, rep)
     detectors.rule_offset_inversion(ctx, rep)
     detectors.rule_group_config(ctx, rep)
     detectors.rule_validated_in_block(ctx, rep)
+    gtxn_tables.rule_index_classification(ctx, rep)
+    gtxn_tables.rule_key_matching(ctx, rep)
 
 
 from .rules import cfg_rules  # noqa: E402
@@ -302,7 +305,10 @@ from .rules import effects  # noqa: E402
              "container nor any alias of one (assignments, element reads, returns, parameters; copies cut the alias) is mutated after "
              "module initialisation; _universal_set returns a fresh object; (E-ORDER) sets of strings are sorted before they are stored "
              "in block-context attributes or returned by to_json; (R-OWN(context)) only the analyses write context attributes - a "
-             "detector cannot change what another reads; (T-STORE) stored lists are functions of the computed sets only. "
+             "detector cannot change what another reads; (T-STORE) stored lists are functions of the computed sets only; (T-HISTORY) the "
+             "predicate and report-condition closures a detector's detect() hands to the path search give the same verdict per context / "
+             "path whatever was asked before (two contracts whose blocks share ids, both orders, repeated); (R-DEFAULT) no mutable "
+             "default arguments. "
              "Not decided: uniqueness of the fixpoint under different worklist orders; byte-identity of whole outputs.")
 def c14(ctx, rep):
     effects.rule_shared_roots(ctx, rep)
@@ -310,6 +316,7 @@ def c14(ctx, rep):
     effects.rule_context_writers(ctx, rep)
     effects.rule_mutable_defaults(ctx, rep)
     effects.rule_pure_lattice(ctx, rep)
+    detectors.rule_history(ctx, rep)
     cmptables.rule_addr_store(ctx, rep)
     cmptables.rule_int_store(ctx, rep)
     cmptables.rule_universe_fresh(ctx, rep)
